@@ -17,8 +17,8 @@ TRUSTED = ["ocaml/driver/c03.ml + c00mc.ml: conversion of the dumped witness int
 
 def streams(tier, seed):
     if tier == "quick":
-        return [dict(tag="main", count=60, seed=seed)]
-    return [dict(tag="main%d" % k, count=400, seed=seed * 1000 + k, extra={"child-runs": 2}) for k in range(5)]
+        return [dict(tag="main", count=40, seed=seed)]
+    return [dict(tag="main%d" % k, count=120, seed=seed * 1000 + k, extra={"child-runs": 2}) for k in range(3)]
 
 
 def search_streams(tier, seed, diffs):
@@ -26,9 +26,13 @@ def search_streams(tier, seed, diffs):
 
 
 MANIFEST = dict(
-    level_text=("Theorems (Coq): see Props/C03.v (check_witness_correct: the executable witness checker decides witness_ok, for ALL "
-                "systems and witnesses). Tie to /repo: every Fail witness produced by the real patronus::mc::bmc in the runs (four "
-                "solver profiles, model diversity) is checked by the extracted check_witness and replayed through patronus::sim::Interpreter."),
+    level_text=("Theorems (Coq): C03_check_witness_correct (the executable checker decides witness_ok - names/order/types, initial values "
+                "agree with the init expressions, some choice of the next-less states makes the run through the witness' inputs satisfy all "
+                "constraints and end with exactly the listed bad states - for ALL well-formed systems and witnesses), "
+                "C03_accepted_witness_is_execution. Tie to /repo: every Fail witness produced by the real patronus::mc::bmc (four solver "
+                "profiles, z3 model-diversity settings, cvc5) is checked by the extracted check_witness against the ORIGINAL system and "
+                "replayed through patronus::sim::Interpreter."),
     level_note=("Trusted: Coq kernel; witnesses are those the installed solvers happen to produce (diversity forced by seeds/phase "
-                "settings and a second solver), not all legal models."),
+                "settings and a second solver), not all legal models. The theorem 'bmc's witness is always witness_ok' (get_witness over "
+                "an abstract solver) is not proved."),
 )
